@@ -11,6 +11,7 @@ from common import *
 from irlib import AnalysisBroken
 from absval import IntVal, PtrVal, CondVal, mk_const, NULL
 from lin import Lin
+from c11_scan import summarize_sites
 
 SIZES = [1, 4, 12]
 NMAX = 1 << 31
@@ -136,7 +137,7 @@ def bsearch_job(repo, fname, K, empty):
     run.run(fname, FnSpec(pre=pre, extents={'arg1': 'arg2 * %d' % K}, post=post,
                           setup=make_setup({0: 'key', 1: 'array'}, 3, K)))
     rule = 'R-EMPTY' if empty else 'R-BSEARCH'
-    obs = summarize(it, run)
+    obs = summarize_sites(it, run)
     for o in obs:
         if o['kind'] == 'post':
             o['name'] = 'size %d: %s' % (K, o['name'])
@@ -183,7 +184,7 @@ def qsort_job(repo, K, part):
     run = ContractRun(it, [])
     pre = ['arg1 >= 4', 'arg1 <= %d' % NMAX] if part else ['arg1 <= 3']
     run.run('qsort', FnSpec(pre=pre, extents={'arg0': 'arg1 * %d' % K}, setup=make_setup({0: 'array'}, 2, K)))
-    obs = summarize(it, run)
+    obs = summarize_sites(it, run)
     if part and stats['rec'] == 0:
         raise AnalysisBroken('qsort: no recursive call reached (anchor vanished)')
     return [('absint', 'R-QSORT-PART' if part else 'R-QSORT-SMALL', obs,
@@ -197,7 +198,7 @@ def rand_job(repo):
     run.run('rand', FnSpec(post=[dict(name='0 <= rand() <= RAND_MAX (INT_MAX)', then=['ret >= 0', 'ret <= 2147483647'])]))
     run.run('rand_r', FnSpec(extents={'arg0': '4'},
                              post=[dict(name='0 <= rand_r() <= RAND_MAX (INT_MAX)', then=['ret >= 0', 'ret <= 2147483647'])]))
-    return [('absint', 'R-RAND', summarize(it, run), dict(loops=0, checked=it.checked, unchecked=it.unchecked))]
+    return [('absint', 'R-RAND', summarize_sites(it, run), dict(loops=0, checked=it.checked, unchecked=it.unchecked))]
 
 
 def run_job(repo, what):
@@ -326,8 +327,8 @@ from irlib import V  # noqa: E402
 
 
 def floors(rep):
-    rep.floor('R-BSEARCH:bounds', 6)
-    rep.floor('R-BSEARCH:keyfirst', 6)
+    rep.floor('R-BSEARCH:bounds', 4)
+    rep.floor('R-BSEARCH:keyfirst', 4)
     rep.floor('R-BSEARCH:post', 3 * 5)
     rep.floor('R-EMPTY', 2)
     rep.floor('R-QSORT-SMALL:bounds', 6)
